@@ -59,7 +59,8 @@ def prep_table(rep, rule, k, with_threshold, override, narrow=False):
                 p = tiers[1].d
                 return {"xmin": res.d["xmin"], "xmax": res.d["xmax"], "entries": [Tup(list(I.iterate(e))) for e in I.iterate(t["entries"])],
                         "points": [Tup(list(I.iterate(e))) for e in I.iterate(p["entries"])],
-                        "receiver": [Tup(list(e.items)) for e in I.iterate(I.getattr(objs[0], "entries"))]}
+                        "receiver": [Tup(list(e.items)) for e in I.iterate(I.getattr(objs[0], "entries"))],
+                        "tier_spans": [(x["xmin"], x["xmax"], I.getattr(o, "minTimestamp"), I.getattr(o, "maxTimestamp")) for x, o in ((t, objs[0]), (p, objs[1]))]}
             got, I = run_code(idx, st, code)
             want = run_spec(idx, st, lambda O: specs.save_prep_interval(O, ents, m, M, lo, hi, blank, L))
 
@@ -73,6 +74,11 @@ def prep_table(rep, rule, k, with_threshold, override, narrow=False):
                         return "written interval %d is %s, expected %s" % (i, show(x), show(Tup(list(y))))
                 if len(g["points"]) != 1 or not entry_equal(I, g["points"][0], pts[0]):
                     return "point tier changed: %s" % show(g["points"])
+                if lo is None and hi is None:
+                    # C01/C02: every tier's own span is written as it is in memory (blank filling changes entries, not headers)
+                    for which, (a, b, ma, mb) in zip(("interval", "point"), g["tier_spans"]):
+                        if not (num_equal(I, a, ma) and num_equal(I, b, mb)):
+                            return "%s tier is written with span (%r, %r), in memory it has (%r, %r)" % (which, a, b, ma, mb)
                 if len(g["receiver"]) != len(ents):
                     return "the textgrid's own tier was modified while preparing the save"
                 if blank and g["entries"]:
@@ -93,7 +99,7 @@ def prep_table(rep, rule, k, with_threshold, override, narrow=False):
 
 def run(rep, tier):
     idx = common.ctx()
-    rep.rule("T10-T12 save preparation", "abstract interpretation of _tgToDictionary + _prepTgForSaving (with _fillInBlanks, _removeUltrashortIntervals, _sortEntries inlined) on a generic textgrid against the spec: verbatim when blank filling is off; otherwise blanks exactly in the unlabelled stretches of the requested span, ParsingError when an entry falls outside it, slivers shorter than the threshold absorbed into the neighbour, nothing absorbed when the threshold is None; the override becomes the file's span; point tiers untouched; the textgrid itself untouched; the written tier partitions [xmin, xmax]")
+    rep.rule("T10-T12 save preparation", "abstract interpretation of _tgToDictionary + _prepTgForSaving (with _fillInBlanks, _removeUltrashortIntervals, _sortEntries inlined) on a generic textgrid against the spec: verbatim when blank filling is off; otherwise blanks exactly in the unlabelled stretches of the requested span, ParsingError when an entry falls outside it, slivers shorter than the threshold absorbed into the neighbour, nothing absorbed when the threshold is None; the override becomes the file's span; point tiers untouched; every tier's own span written as in memory (no override); the textgrid itself untouched; the written tier partitions [xmin, xmax]")
     rep.rule("G-guards", "getTextgridAsStr interpreted per format with its callees abstracted to recorders: the dictionary is prepared exactly once, with the caller's blank-filling / span-override / threshold options passed through unchanged, before anything is serialised")
     rep.not_decided.append("'no written interval is shorter than the threshold' after chains of slivers whose sum is still below the threshold (depends on sums of lengths)")
     rep.not_decided.append("the second (boundary-stitching) loop of _removeUltrashortIntervals is a no-op on a partition in exact arithmetic; its float behaviour is not decided")
